@@ -20,9 +20,9 @@ EXTENDS Integers, Sequences, FiniteSets, TLC, Json, IOUtils
 Trace == ndJsonDeserialize(IOEnv.TRACE_FILE)
 
 VARIABLES l, scn, hooks, pred, reqi, tx, acq, step, lastw, pendA, failedH, open, cancelled, cmds, laterStart, lateErr, sawAfter,
-          inWin, winStarted, outStarted, run, runView, ended, endS, endC, nviol
+          inWin, winStarted, outStarted, run, runView, seen, ended, endS, endC, nviol
 
-vars == <<l, scn, hooks, pred, reqi, tx, acq, step, lastw, pendA, failedH, open, cancelled, cmds, laterStart, lateErr, sawAfter, inWin, winStarted, outStarted, run, runView, ended, endS, endC, nviol>>
+vars == <<l, scn, hooks, pred, reqi, tx, acq, step, lastw, pendA, failedH, open, cancelled, cmds, laterStart, lateErr, sawAfter, inWin, winStarted, outStarted, run, runView, seen, ended, endS, endC, nviol>>
 
 Line == Trace[l]
 Soft(name, cond, detail) == IF cond THEN 0 ELSE IF PrintT(<<"VIOL", name, scn, l, detail>>) THEN 1 ELSE 1
@@ -34,25 +34,26 @@ Dst(op) == CASE op = "START_ACTIVITY" -> "RUNNING" [] op = "STOP_ACTIVITY" -> "C
              [] op = "CONFIGURE" -> "CONFIGURED" [] op = "GO_ERROR" -> "ERROR" [] OTHER -> ""
 NoStep == [m |-> "", k |-> "", tx |-> ""]
 NoView == [rn |-> 0, sosor |-> 0]
+NoSeen == [sosor |-> 0, eosor |-> 0, soeor |-> 0, eoeor |-> 0]
 
 Init ==
   /\ l = 1 /\ scn = -1 /\ hooks = <<>> /\ pred = <<>> /\ reqi = 0 /\ tx = "" /\ acq = "" /\ step = NoStep /\ lastw = -1000
   /\ open = {} /\ pendA = {} /\ failedH = {} /\ cancelled = FALSE /\ cmds = 0 /\ laterStart = FALSE /\ lateErr = FALSE /\ sawAfter = FALSE
   /\ inWin = FALSE /\ winStarted = {} /\ outStarted = {}
-  /\ run = 0 /\ runView = NoView /\ ended = TRUE /\ endS = 0 /\ endC = 0 /\ nviol = 0
+  /\ run = 0 /\ runView = NoView /\ seen = NoSeen /\ ended = TRUE /\ endS = 0 /\ endC = 0 /\ nviol = 0
 
 TReset ==
   /\ Line.ev = "Reset"
   /\ scn' = Line.scn /\ hooks' = Line.model.hooks /\ pred' = Line.model.pred /\ reqi' = 0 /\ tx' = "" /\ acq' = ""
   /\ step' = NoStep /\ lastw' = -1000 /\ open' = {} /\ pendA' = {} /\ failedH' = {} /\ cancelled' = FALSE /\ cmds' = 0 /\ laterStart' = FALSE /\ lateErr' = FALSE /\ sawAfter' = FALSE
   /\ inWin' = FALSE /\ winStarted' = {} /\ outStarted' = {}
-  /\ run' = 0 /\ runView' = NoView /\ ended' = TRUE /\ endS' = 0 /\ endC' = 0
+  /\ run' = 0 /\ runView' = NoView /\ seen' = NoSeen /\ ended' = TRUE /\ endS' = 0 /\ endC' = 0
   /\ UNCHANGED nviol
 
 TAcq ==
   /\ Line.ev = "Acq"
   /\ tx' = Line.what /\ acq' = Line.st /\ cancelled' = FALSE /\ cmds' = 0 /\ laterStart' = FALSE /\ lateErr' = FALSE /\ sawAfter' = FALSE
-  /\ UNCHANGED <<scn, hooks, pred, reqi, step, lastw, pendA, failedH, open, inWin, winStarted, outStarted, run, runView, ended, endS, endC, nviol>>
+  /\ UNCHANGED <<scn, hooks, pred, reqi, step, lastw, pendA, failedH, open, inWin, winStarted, outStarted, run, runView, seen, ended, endS, endC, nviol>>
 
 \* end of a transition: the C09 clauses about what a failure at each moment means
 TRel ==
@@ -62,7 +63,7 @@ TRel ==
        \* C09: a failure at enter_/after_ keeps the destination state and the remaining moments still run
        + Soft("KeepAfter", lateErr => (Line.st = Dst(tx) /\ sawAfter), <<tx, Line.st, sawAfter>>)
   /\ tx' = "" /\ acq' = "" /\ cancelled' = FALSE /\ cmds' = 0 /\ laterStart' = FALSE /\ lateErr' = FALSE /\ sawAfter' = FALSE
-  /\ UNCHANGED <<scn, hooks, pred, reqi, step, lastw, pendA, failedH, open, inWin, winStarted, outStarted, run, runView, ended, endS, endC>>
+  /\ UNCHANGED <<scn, hooks, pred, reqi, step, lastw, pendA, failedH, open, inWin, winStarted, outStarted, run, runView, seen, ended, endS, endC>>
 
 AwaitHere(h, m) == HK(h).am = m /\ (HK(h).tm # m \/ HK(h).aw >= HK(h).tw)
 
@@ -96,7 +97,7 @@ TStep ==
                         <<Line.m, Line.k>>)
   /\ inWin' = IF Line.phase = "end" /\ Line.m = "after_STOP_ACTIVITY" THEN FALSE ELSE inWin
   /\ winStarted' = IF Line.phase = "end" /\ Line.m = "after_STOP_ACTIVITY" THEN {} ELSE winStarted
-  /\ UNCHANGED <<scn, hooks, pred, reqi, tx, acq, pendA, failedH, open, cmds, outStarted, run, runView, ended, endS, endC>>
+  /\ UNCHANGED <<scn, hooks, pred, reqi, tx, acq, pendA, failedH, open, cmds, outStarted, run, runView, seen, ended, endS, endC>>
 
 \* a probe hook starts: where, in which order, and what it sees of the run
 THS ==
@@ -106,9 +107,15 @@ THS ==
   \* It is judged only when both lie on the same side of the run window [SOSOR, end of after_STOP_ACTIVITY].
   /\ LET inside == inWin /\ Line.hook \in winStarted
          outside == ~inWin /\ Line.hook \in outStarted
+         SameRun == Line.sosor # 0 /\ (seen.sosor = 0 \/ seen.sosor = Line.sosor)
      IN
      /\ runView' = IF inside /\ runView.rn = 0 THEN [rn |-> Line.rn, sosor |-> Line.sosor] ELSE runView
+     \* what the hooks of one run (same start time) have seen of its four stamps so far
+     /\ seen' = IF SameRun THEN [f \in DOMAIN NoSeen |-> IF seen[f] = 0 THEN Line[f] ELSE seen[f]] ELSE seen
      /\ nviol' = nviol
+          \* C10: each stamp is set at most once per run: two hooks of one run never see two different values of a stamp
+          + Soft("SetOnce", SameRun => \A f \in DOMAIN NoSeen : (seen[f] # 0 /\ Line[f] # 0) => Line[f] = seen[f],
+                 <<Line.hook, seen, Line.sosor, Line.eosor, Line.soeor, Line.eoeor>>)
           \* C10: between SOSOR and the end of after_STOP_ACTIVITY every hook sees this run's number and start time
           + Soft("SetBetween", inside => (Line.rn = run /\ Line.sosor # 0), <<Line.hook, Line.rn, run, Line.sosor>>)
           + Soft("Stable", (inside /\ runView.rn # 0) => (Line.rn = runView.rn /\ Line.sosor = runView.sosor), <<Line.hook, Line.rn, Line.sosor, runView>>)
@@ -136,7 +143,7 @@ THStart ==
           + Soft("Ordered", Line.w > lastw, <<Line.m, Line.w, lastw>>)
           \* C09: after a critical failure at before_/leave_ no later hook of that transition is started
           + Soft("CancelBefore", ~cancelled, <<Line.m, Line.w, C>>)
-  /\ UNCHANGED <<scn, hooks, pred, reqi, tx, acq, step, failedH, open, cancelled, cmds, laterStart, lateErr, sawAfter, inWin, run, runView, ended, endS, endC>>
+  /\ UNCHANGED <<scn, hooks, pred, reqi, tx, acq, step, failedH, open, cancelled, cmds, laterStart, lateErr, sawAfter, inWin, run, runView, seen, ended, endS, endC>>
 
 \* handleHooks has awaited the calls due at (moment, weight)   [hook point env.hooks.awaited]
 THAwaited ==
@@ -154,18 +161,18 @@ THAwaited ==
           \* C09 (and C08: the call's result is collected, not dropped): the failure of a critical call that was
           \* started and has failed is reported where the call is awaited
           + Soft("CriticalFailureReported", (\E c \in C \cap failedH : HK(c).crit) => Line.errors > 0, <<Line.m, C \cap failedH, Line.errors>>)
-  /\ UNCHANGED <<scn, hooks, pred, reqi, tx, acq, step, lastw, open, cmds, laterStart, lateErr, sawAfter, inWin, winStarted, outStarted, run, runView, ended, endS, endC>>
+  /\ UNCHANGED <<scn, hooks, pred, reqi, tx, acq, step, lastw, open, cmds, laterStart, lateErr, sawAfter, inWin, winStarted, outStarted, run, runView, seen, ended, endS, endC>>
 
 THE ==
   /\ Line.ev = "HE"
   /\ open' = open \ {Line.hook}
   /\ failedH' = IF Line.ok THEN failedH ELSE failedH \cup ({Line.hook} \cap pendA)   \* failed and not yet collected
-  /\ UNCHANGED <<scn, hooks, pred, reqi, tx, acq, step, lastw, pendA, cancelled, cmds, laterStart, lateErr, sawAfter, inWin, winStarted, outStarted, run, runView, ended, endS, endC, nviol>>
+  /\ UNCHANGED <<scn, hooks, pred, reqi, tx, acq, step, lastw, pendA, cancelled, cmds, laterStart, lateErr, sawAfter, inWin, winStarted, outStarted, run, runView, seen, ended, endS, endC, nviol>>
 
 TCmd ==
   /\ Line.ev = "Cmd"
   /\ cmds' = IF Line.tx = tx THEN cmds + 1 ELSE cmds
-  /\ UNCHANGED <<scn, hooks, pred, reqi, tx, acq, step, lastw, pendA, failedH, open, cancelled, laterStart, lateErr, sawAfter, inWin, winStarted, outStarted, run, runView, ended, endS, endC, nviol>>
+  /\ UNCHANGED <<scn, hooks, pred, reqi, tx, acq, step, lastw, pendA, failedH, open, cancelled, laterStart, lateErr, sawAfter, inWin, winStarted, outStarted, run, runView, seen, ended, endS, endC, nviol>>
 
 \* published run events: SOSOR (START STARTED) opens a run; the end-of-run pair must occur exactly once per run
 TRun ==
@@ -181,6 +188,7 @@ TRun ==
         /\ outStarted' = IF isStart THEN {} ELSE outStarted
         /\ run' = IF isStart THEN Line.rn ELSE run
         /\ runView' = IF isStart THEN NoView ELSE runView
+        /\ seen' = IF isStart THEN NoSeen ELSE seen
         /\ ended' = IF isStart THEN TRUE ELSE IF isStartDone THEN FALSE ELSE ended   \* "ended" = no run that reached RUNNING is open
         /\ endS' = IF isStart THEN 0 ELSE IF isEndS \/ (isTd /\ endS = 0) THEN endS + 1 ELSE endS
         /\ endC' = IF isStart THEN 0 ELSE IF isEndC \/ (isTd /\ endS # 0) THEN endC + 1 ELSE endC
@@ -207,17 +215,17 @@ TReply ==
              \* C10: the run number is gone after a successful STOP and reported while RUNNING
              + Soft("Gone", over => Line.rn = 0, <<Line.op, Line.st, Line.rn>>)
              + Soft("SetBetween", (Line.code = "OK" /\ Line.st = "RUNNING") => Line.rn = run, <<Line.op, Line.rn, run>>)
-  /\ UNCHANGED <<scn, hooks, pred, tx, acq, step, lastw, pendA, failedH, open, cancelled, cmds, laterStart, lateErr, sawAfter, inWin, winStarted, outStarted, run, runView, endS, endC>>
+  /\ UNCHANGED <<scn, hooks, pred, tx, acq, step, lastw, pendA, failedH, open, cancelled, cmds, laterStart, lateErr, sawAfter, inWin, winStarted, outStarted, run, runView, seen, endS, endC>>
 
 \* end of a scenario: every run that was started has been ended exactly once
 TEnd ==
   /\ Line.ev = "End"
   /\ nviol' = nviol + Soft("EndExactlyOnce", run = 0 \/ ended \/ (endS = 1 /\ endC = 1), <<run, endS, endC>>)
-  /\ UNCHANGED <<scn, hooks, pred, reqi, tx, acq, step, lastw, pendA, failedH, open, cancelled, cmds, laterStart, lateErr, sawAfter, inWin, winStarted, outStarted, run, runView, ended, endS, endC>>
+  /\ UNCHANGED <<scn, hooks, pred, reqi, tx, acq, step, lastw, pendA, failedH, open, cancelled, cmds, laterStart, lateErr, sawAfter, inWin, winStarted, outStarted, run, runView, seen, ended, endS, endC>>
 
 TOther ==
   /\ Line.ev \notin {"Reset", "Acq", "Rel", "Step", "HS", "HStart", "HAwaited", "HE", "Cmd", "Run", "Reply", "End"}
-  /\ UNCHANGED <<scn, hooks, pred, reqi, tx, acq, step, lastw, pendA, failedH, open, cancelled, cmds, laterStart, lateErr, sawAfter, inWin, winStarted, outStarted, run, runView, ended, endS, endC, nviol>>
+  /\ UNCHANGED <<scn, hooks, pred, reqi, tx, acq, step, lastw, pendA, failedH, open, cancelled, cmds, laterStart, lateErr, sawAfter, inWin, winStarted, outStarted, run, runView, seen, ended, endS, endC, nviol>>
 
 TraceNext ==
   /\ l <= Len(Trace)
